@@ -75,19 +75,20 @@ def body(run: Run, replay):
             run.add_tlc(nm, r_)
             run.violation("TLC: %s (%s)" % (r_.violation, nm), {"tlc": r_.error_text()}, {"where": "model"})
             return
-    run.add_tlc("MC_Srs.cfg", res, "864 option points; invariant IndexLaws over 24 index cases")
+    run.add_tlc("MC_Srs.cfg", res, "864 option points; invariants IndexLaws over 24 index cases and UpLaws over 600 rolloff cases")
     run.add_tlc("MC_OdeModel.cfg", res2, "exact oscillator step terms (und, rb0) reused as the history oracle")
     step_terms = {(k, o): v for (k, o, *v) in res2.tagged("STEP")}
     run.rule = ("every option point stype x ic x time x peak x eqsine (864) on index cases M in {1,2,7} x sr in {100,128} x lowest frequency in "
                 "{0,3,7,50}: history vs the exact oscillator terms (1e-9 of the history scale), spectrum = stated statistic of the returned "
                 "history (exact), shapes, resp['t']; packaging 1-D / Nx1 / NxH; algebraic laws. distinct non-trivial = (point, index case)")
-    run.assumptions = ["rolloff='none' for the exactness clause (resampling accuracy belongs to C19)", "sr/fn <= 2000; Q = 8",
+    run.assumptions = ["rolloff='none' for the exactness clause (resampling accuracy belongs to C19); with a resampling rolloff the history is compared with "
+                       "the exact response to the record as resampled by the public srs.linroll/lanroll/fftroll", "rolloff='prefilter' needs more than 12 samples (scipy filtfilt)", "sr/fn <= 2000; Q = 8",
                        "the digital filter starts from rest one sample before the record (zero state of the ramp-invariant filter)",
                        "ic='steady' at exactly 0 Hz is not compared for reldisp/pvelo/pacce (the static offset s1/w^2 is singular there)"]
     rng = np.random.default_rng(run.seed)
     Q = 8.0
     npt = 0
-    for pi, (point, quantity, offset, windows) in enumerate(res.tagged("POINT")):
+    for pi, (point, quantity, offset, windows, upwindows) in enumerate(res.tagged("POINT")):
         cases = sorted(windows.items()) if isinstance(windows, dict) else list(enumerate(windows))
         for ci, (ck, win) in enumerate(cases):
             M, sr, fmin = ck
@@ -145,7 +146,66 @@ def body(run: Run, replay):
             run.trace_validated()
         if pi < 2:
             run.sample({"point": point, "quantity": quantity})
+        if not upsampled(run, np, srs, rng, step_terms, pi, point, quantity, offset, upwindows, Q):
+            return
     laws(run, np, srs, rng)
+
+
+def upsampled(run, np, srs, rng, step_terms, pi, point, quantity, offset, upwindows, Q):
+    """rolloff index model (spec UpWindow): rate, resampled length, appended cycle and window start of the RESAMPLED record"""
+    rollfn = {"linear": srs.linroll, "lanczos": srs.lanroll, "fft": srs.fftroll}
+    ucases = sorted(upwindows.items())
+    stride = 48 if run.tier == "quick" else 6
+    for ui, (ck, u) in enumerate(ucases):
+        if (pi * 7 + ui) % stride:
+            continue
+        roll, M, sr, fmin, fmax, ppc = ck
+        if fmax < fmin or (roll == "prefilter" and M <= 12):
+            continue          # scipy's filtfilt (the prefilter) refuses records of 12 samples or fewer with a ValueError
+        H = 1 + ui % 2
+        sig = np.round(rng.standard_normal((M, H)) * 4) / 2 + 0.5
+        freq = np.array(sorted({float(fmin), float(fmax)}))
+        case = {"point": point, "rolloff": roll, "M": M, "sr": sr, "freq": freq.tolist(), "ppc": ppc, "signal": sig.tolist()}
+        run.case((json.dumps(point, sort_keys=True), ck), part="rolloff index model")
+        kw = dict(ic=point["ic"], stype=point["stype"], peak=point["peak"], eqsine=point["eqsine"], time=point["time"], parallel="no")
+        try:
+            sh, resp = srs.srs(sig, float(sr), freq, Q, rolloff=roll, ppc=ppc, getresp=True, **kw)
+        except Exception as ex:
+            run.violation("srs raised %r" % ex, case, {"stype": point["stype"], "rolloff": roll})
+            continue
+        hist = resp["hist"]
+        bad = None
+        if resp["sr"] != float(u["sr"]):
+            bad = "resp['sr'] = %r, the index model says %r (factor %d)" % (resp["sr"], u["sr"], u["k"])
+        elif hist.shape != (u["N"] - u["S"], H, len(freq)):
+            bad = "resp['hist'] has shape %r, the index model of the resampled record says %r" % (hist.shape, (u["N"] - u["S"], H, len(freq)))
+        elif not np.array_equal(resp["t"], np.arange(u["S"], u["N"]) / float(u["sr"])):
+            bad = "resp['t'] is not (S .. N-1)/sr of the resampled record (S = %d, N = %d, sr = %d)" % (u["S"], u["N"], u["sr"])
+        if bad is None and hist.shape[0] > 0:
+            stat = np.array([PEAK[point["peak"]](hist[:, :, k], np) for k in range(len(freq))])
+            if np.shape(sh) != stat.shape or not np.array_equal(np.asarray(sh), stat):
+                bad = "spectrum is not the '%s' statistic of the returned history over the '%s' window" % (point["peak"], point["time"])
+        if bad is None and point["ic"] == "zero" and roll in rollfn and u["k"] > 1:
+            # the resampled record itself is public (srs.linroll / lanroll / fftroll): the history must be the exact oscillator
+            # response to it at the new rate, over the window of the resampled record
+            up, sr2 = rollfn[roll](sig, float(sr), ppc, float(fmax))
+            if up.shape[0] != u["M"] or sr2 != float(u["sr"]):
+                bad = "%s: resampled record has %d samples at %r Hz, the index model says %d at %d" % (rollfn[roll].__name__, up.shape[0], sr2, u["M"], u["sr"])
+            else:
+                sh2, resp2 = srs.srs(up, sr2, freq, Q, rolloff="none", getresp=True, **kw)
+                sc = max(np.abs(resp2["hist"]).max(), 1e-300)
+                if resp2["hist"].shape != hist.shape or not np.abs(resp2["hist"] - hist).max() <= 1e-12 * sc:
+                    bad = "history differs from the one of the hand-resampled record at the new rate with rolloff='none'"
+                elif (pi + ui) % (6 * stride) == 0:
+                    exp = oracle_hist(np, step_terms, up, sr2, freq, Q, point, quantity, offset, {"N": u["N"], "S": u["S"]})
+                    if not np.abs(exp - hist).max() <= 1e-9 * max(np.abs(exp).max(), 1e-300):
+                        bad = "history differs from the exact oscillator response to the resampled record"
+        if bad:
+            run.violation("srs with rolloff: " + bad, case, {"stype": point["stype"], "ic": point["ic"], "time": point["time"], "rolloff": roll})
+            if len(run.violations) > 15:
+                return False
+        run.trace_validated()
+    return True
 
 
 def laws(run, np, srs, rng):
